@@ -117,6 +117,32 @@ def build_perm(tier, seed):
                 else:
                     d.vals.append(float_bound("less", ty, "1.0", None, Fraction(1), d))
             d.derives = ["Debug"]
+        # bound spellings whose mis-reading changes *which* rule is blamed: exponent literals, user constants named like std's MIN / MAX next to `finite`,
+        # expression bounds; nested and contradictory pairs in both orders, with `finite` at every position
+        spell = [("1e2", Fraction(100), "1e3", Fraction(1000), ""), ("2.5e1", Fraction(25), "1e2", Fraction(100), ""), ("1E1", Fraction(10), "1.5E2", Fraction(150), ""),
+                 ("MIN", Fraction(10), "MAX", Fraction(20), f"pub const MIN: {ty} = 10.0; pub const MAX: {ty} = 20.0;"),
+                 ("-MAX", Fraction(-20), "MAX", Fraction(20), f"pub const MAX: {ty} = 20.0;"),
+                 ("EPSILON", Fraction(3), "INFINITY", Fraction(30), f"pub const EPSILON: {ty} = 3.0; pub const INFINITY: {ty} = 30.0;"),
+                 ("K + 1.0", Fraction(11), "K * 3.0", Fraction(30), f"const K: {ty} = 10.0;")]
+        for si, (lt, lv, ut, uv, sup) in enumerate(spell):
+            for ci, (lk, uk) in enumerate(itertools.product(["greater", "greater_or_equal"], ["less", "less_or_equal"])):
+                if tier == "quick" and (si + ci) % 2 != 0:
+                    continue
+                for contradictory in (False, True):
+                    for fpos in (None, 0, 1, 2):
+                        if tier == "quick" and fpos in (1,) and contradictory:
+                            continue
+                        if contradictory and not sup:
+                            continue   # contradictory *literal* bounds are refused at compile time (C08's R7)
+                        d = b.new(inner_float(ty), tags=tags)
+                        if sup:
+                            d.support.append(sup)
+                        lo = Vld(lk, lt if not contradictory else ut, float_denote(ty, lv if not contradictory else uv))
+                        hi = Vld(uk, ut if not contradictory else lt, float_denote(ty, uv if not contradictory else lv))
+                        d.vals = [lo, hi] if (si + ci) % 2 == 0 else [hi, lo]
+                        if fpos is not None:
+                            d.vals.insert(fpos, Vld("finite"))
+                        d.derives = ["Debug"]
     # ---- custom with/error in every family: the user's error value must come back unchanged, computed on the sanitized value
     d = b.new(inner_int("i32"), tags=tags); add_with_sanitizer(d, "x.wrapping_add(1)", "closure"); add_custom_validation(d, "*x % 3 != 0"); d.derives = ["Debug"]
     d = b.new(inner_float("f64"), tags=tags); add_with_sanitizer(d, "x.abs()", "typed"); add_custom_validation(d, "*x < 10.0"); d.derives = ["Debug"]
